@@ -261,6 +261,8 @@ func (u *Unit) execCallVals(st *State, fr *Frame, site ssa.Instruction, c *ssa.C
 }
 
 func (p *Prog) fnByAtomName(atom string) *ssa.Function {
+	p.mu.Lock()
+	defer p.mu.Unlock()
 	for _, f := range p.fnByID {
 		if "fn!"+sanitize(f.String()) == atom {
 			return f
@@ -277,10 +279,10 @@ func (u *Unit) devirtualize(recv Term, m *types.Func) *ssa.Function {
 	}
 	var id int
 	fmt.Sscanf(recv.Op, "box_%d", &id)
-	if id <= 0 || id >= len(u.P.TW.typeByID) {
+	t := u.P.TW.TypeByID(id)
+	if t == nil {
 		return nil
 	}
-	t := u.P.TW.typeByID[id]
 	sel := u.P.Prog.MethodSets.MethodSet(t).Lookup(m.Pkg(), m.Name())
 	if sel == nil {
 		return nil
@@ -423,6 +425,8 @@ func (u *Unit) havocKey(st *State, key string, modified func(addr Term) Term) {
 // ---------------- leak analysis ----------------
 
 func (p *Prog) allocLeaks(a *ssa.Alloc) bool {
+	p.mu.Lock()
+	defer p.mu.Unlock()
 	if p.leakCache == nil {
 		p.leakCache = map[ssa.Value]bool{}
 	}
@@ -820,9 +824,9 @@ func posOf(in ssa.Instruction) token.Pos {
 // modTarget is one evaluated modifies entry.
 type modTarget struct {
 	all   bool
-	key   string                 // memory key ("" = by address only)
-	addr  *Term                  // single location
-	pred  func(addr Term) Term   // region predicate
+	key   string               // memory key ("" = by address only)
+	addr  *Term                // single location
+	pred  func(addr Term) Term // region predicate
 	keys  []string
 	sorts []Sort
 	text  string
